@@ -609,16 +609,19 @@ def check_purge(ctx, facts, rule):
             continue        # the cut-off is not asked per stamp: covered by the single-tombstone scenarios only
         n_many += 1
         out, live, dead = res
-        want_out = sorted((k, d) for k, d in many.items() if ans.get(d) is True)
-        want_dead = {k: d for k, d in many.items() if ans.get(d) is not True}
-        if out != want_out or dead != want_dead or live != {'k0': 'e'}:
-            lost = [k for k in many if k not in dead and k not in [o[0] for o in out]]
+        # (C08 does not require that EVERY purgeable tombstone goes in one call — a purge that works in batches and keeps the rest is fine)
+        returned = [o[0] for o in out]
+        fresh_lost = [k for k, d in many.items() if ans.get(d) is not True and (k not in dead or k in returned)]
+        wrong = [o for o in out if many.get(o[0]) != o[1]]
+        if fresh_lost or wrong or live != {'k0': 'e'}:
             bad_many.append('with the stamps before the cut-off: %s the purge returns %s and keeps the tombstones %s%s' % (
                 {d: a for d, a in sorted(ans.items())}, out, sorted(dead),
-                ' — the tombstone of %s is neither returned nor kept: it vanishes, and an older write for that key is accepted again' % lost if lost else ''))
+                ' — the tombstone of %s is NOT before the cut-off and is gone after the purge: an older write for that key that is still on its way is accepted again and '
+                'the deleted document reappears on this replica only' % fresh_lost if fresh_lost else
+                (' — the live entries changed: %s' % live if live != {'k0': 'e'} else ' — something that is not a tombstone of the set is returned')))
     if n_many:
         ctx.ob(rule, 'purge|several tombstones (a set of any size)', not bad_many, _site(body),
-               'purge on several tombstones (standing for any number): each is returned exactly when its own stamp is before the cut-off and kept otherwise, on all %d paths' % n_many
+               'purge on several tombstones (standing for any number): no tombstone whose stamp is not before the cut-off is removed or returned, live entries are untouched, on all %d paths' % n_many
                if not bad_many else bad_many[0])
     for inp in inputs:
         bad = []
